@@ -28,6 +28,8 @@ def cells(tier):
         "A1|M2/2|gac": [[A("A", 1)], [M("M", 2, 2)], [GAC]],
         "M0/1 e,flush|A1": [[M("E", 0, 1, name="e"), FLUSH], [A("A", 1)]],
         "M2/1 allbad,flush": [[M("E", 2, 1, name="e", bad=[0, 1]), FLUSH]],
+        "A1|gac,unlock": [[A("A", 1)], [GAC, UNLOCK]],
+        "A1|gac|unlock,lock,unlock": [[A("A", 1)], [GAC], [UNLOCK, LOCK, UNLOCK]],
     }
     for size in ([1, 2] if q else [0, 1, 2, "inf"]):
         for hn, h in H.items():
